@@ -121,7 +121,7 @@ func (f *Frame) execValue(n *xnode, st *execState, ins ssa.Value) Val {
 		ln := f.idx64(st, x.Len)
 		cp := f.idx64(st, x.Cap)
 		esz := sizes.Sizeof(x.Type().Underlying().(*types.Slice).Elem())
-		lim := c64(uint64((1 << 40) / max64(esz, 1)))
+		lim := c64(uint64((1 << 45) / max64(esz, 1)))
 		f.safety(st, "makeslice", tb.And(tb.Ule(ln, cp), tb.Ule(cp, lim)), x.Pos(), "make: 0 <= len <= cap and cap within allocation limit")
 		p := f.allocate(st, "make."+f.fn.Name()+"."+x.Name(), tb.Mul(cp, c64(uint64(esz))), true)
 		return SliceV{p, ln, cp}
@@ -210,9 +210,9 @@ func (f *Frame) allocate(st *execState, hint string, size *Term, zero bool) *Ter
 	p := tb.Fresh(hint, BV(64))
 	lim := tb.ConstU(addrLimit, 64)
 	// non-null, inside the address space, no wrap
-	e.assume(tb.Ult(tb.ConstU(4096, 64), p))
+	e.assume(tb.Ule(tb.ConstU(preLimit, 64), p))
 	e.assume(tb.Ult(p, lim))
-	e.assume(tb.Ule(size, tb.ConstU(1<<40, 64)))
+	e.assume(tb.Ule(size, tb.ConstU(1<<45, 64)))
 	e.assume(tb.Ule(tb.Add(p, size), lim))
 	// disjoint from every region known so far
 	for _, r := range e.regions {
@@ -552,6 +552,18 @@ func (e *Engine) floatOp(name string, inw, outw int, args ...*Term) *Term {
 }
 
 func (e *Engine) floatCmp(name string, a, b *Term) *Term {
+	// x == 0.0 holds exactly for +0 and -0 (NaN compares unequal)
+	if name == "feq" {
+		tb := e.tb
+		isZero := func(t *Term) bool { return t.IsConst() && t.val.Sign() == 0 }
+		if isZero(b) {
+			a, b = b, a
+		}
+		if isZero(a) {
+			w := b.sort.W
+			return tb.Eq(tb.Extract(w-2, 0, b), tb.ConstU(0, w-1))
+		}
+	}
 	u := e.tb.DeclUF(fmt.Sprintf("%s_%d", name, a.sort.W), []Sort{a.sort, b.sort}, BoolSort)
 	return e.tb.App(u, a, b)
 }
